@@ -2,7 +2,7 @@
    Property theorems only; every proof is `exact <lemma>`.  The model (model/Arith.v)
    takes every table and threshold from gen/GenArith.v, regenerated from /repo. *)
 From Coq Require Import NArith List.
-From V Require Import lib.Words gen.GenArith spec.RfcTables model.Arith proofs.Arith_proofs proofs.Dist_proofs.
+From V Require Import lib.Words gen.GenArith spec.RfcTables model.Arith proofs.Arith_proofs proofs.Dist_proofs proofs.Cmd_proofs.
 Open Scope N_scope.
 
 (* Every insert length the format can carry (0 .. 22594+2^24-1): the code computed by the
@@ -58,6 +58,30 @@ Theorem C18_dist_short : forall np nd dc, dc < 16 + nd -> nd <= 120 ->
   (16 <= dc -> rfc_distance np nd dc 0 = dc - 15).
 Proof. exact dist_short_correct. Qed.
 Print Assumptions C18_dist_short.
+
+(* The command record packs (copy length, copy length code) into one word with a 7-bit signed
+   delta; for every pair the encoder builds (lengths below 2^25, delta in [-64, 63]) both are
+   recovered exactly. *)
+Theorem C18_copy_len_code : forall nd np ins copylen code dc,
+  copylen < 2 ^ 25 -> code < 2 ^ 25 -> copylen <= code + 64 -> code <= copylen + 63 ->
+  let c := command_new nd np ins copylen code dc in
+  cmd_copy_len c = copylen /\ cmd_copy_len_code c = code.
+Proof. exact copy_len_code_roundtrip. Qed.
+Print Assumptions C18_copy_len_code.
+
+(* StoreCommandExtra hands the bit writer exactly rfc_ins_extra + rfc_copy_extra bits whose
+   value is the copy extra bits above the insert extra bits, each within its width. *)
+Theorem C18_store_extra : forall c : command,
+  insert_len_ c < 22594 + 2 ^ 24 ->
+  2 <= cmd_copy_len_code c -> cmd_copy_len_code c < 2118 + 2 ^ 24 ->
+  let ic := get_insert_length_code (insert_len_ c) in
+  let cc := get_copy_length_code (cmd_copy_len_code c) in
+  let iv := insert_len_ c - rfc_ins_base ic in
+  let cv := cmd_copy_len_code c - rfc_copy_base cc in
+  iv < 2 ^ rfc_ins_extra ic /\ cv < 2 ^ rfc_copy_extra cc /\
+  store_command_extra c = (rfc_ins_extra ic + rfc_copy_extra cc, cv * 2 ^ rfc_ins_extra ic + iv).
+Proof. exact store_command_extra_correct. Qed.
+Print Assumptions C18_store_extra.
 
 (* Non-vacuity: concrete non-trivial points inside every domain. *)
 Example C18_points :
